@@ -211,7 +211,7 @@ def run(check, tier):
                           "multiple of the declared unit of an angle input; cos/sin of constants are exact at multiples of pi/2",
                           "sampling 1.0 so that all k^2 are multiples of 1/16"]
     check.outside += ["pure-phase energy with >= 3 slices or 2 slices on >= 4 pixels as a single query (nlsat does not finish); it follows "
-                      "by composition of the per-step identities that are decided", "ROI larger than 4 pixels per axis", "mixed-state branch of fourier_projection (1e-9 regulariser)",
+                      "by composition of the per-step identities that are decided", "ROI larger than 4 pixels per axis", "mixed-state branch of fourier_projection (tried: 2 modes on a 1x2 ROI, sum of the projected modes' intensities = measured pattern with the 1e-9 regulariser as a tolerance - z3 (default and QF_NRA) does not answer within 15 minutes)",
                       "gradient_step", "object-side _propagate_array/_get_obj_patches (identical expressions)"]
     decide_many(check, [(n, c, dict(o, key=n.split("[")[0])) for n, c, o in cases(tier)],
                 timeout_s=120 if tier == "quick" else 600, validate=1 if tier == "quick" else 2)
